@@ -54,6 +54,20 @@ def limiter_clause(vals, limiter, clause):
     r = float(f(a, b))
     show(limiter=limiter, clause=clause, a=a, b=b, lam=lam, result=r)
     p = a * b
+    if clause == "float-accuracy":
+        # the statement's clauses at double-precision accuracy over the stated range of magnitudes (a lower-precision buffer
+        # rounds or overflows): bounds, a=b returns a, finiteness
+        ok = True
+        for mag in (1e-150, 1e-30, 1e-8, 0.1, 1.0, 3.7, 1e8, 1e100, 1e150):
+            for ra_, rb_ in ((1.0, 1.0), (1.0, 0.3), (0.7, 1.9), (-1.0, -1.0), (-0.45, -1.0)):
+                x, y = ra_ * mag, rb_ * mag
+                v = float(f(x, y))
+                lim = min(2 * min(abs(x), abs(y)), max(abs(x), abs(y))) * (1 + 8 * U)
+                same = (x != y) or abs(v - x) <= abs(x) * 8 * U
+                if not (math.isfinite(v) and abs(v) <= lim and same):
+                    show(limiter=limiter, a=x, b=y, result=v, bound=lim)
+                    ok = False
+        return ok
     if clause == "finite":
         ok = math.isfinite(r) and abs(r) <= 2 * min(abs(a), abs(b)) * (1 + 4 * U) and abs(r) <= max(abs(a), abs(b)) * (1 + 4 * U)
         # arrays too
